@@ -60,6 +60,11 @@ def catalogue():
         out.append((f"form:stiff:{oname}={oval}", "form", form("stiff"), {oname: oval}, [], False))
     out.append(("form:mass:args=-O0", "form", form("mass"), {}, ["-O0"], False))
     out.append(("form:mass:args=-O3", "form", form("mass"), {}, ["-O3"], False))
+    # flag lists that are permutations / repetitions of each other: the order is significant to the compiler (-D/-U, -O*, -f/-fno-: the last one wins)
+    out.append(("form:mass:args=-O0,-O3", "form", form("mass"), {}, ["-O0", "-O3"], False))
+    out.append(("form:mass:args=-O3,-O0", "form", form("mass"), {}, ["-O3", "-O0"], False))
+    out.append(("form:mass:args=-UX,-DX=1", "form", form("mass"), {}, ["-UFFCX_VERIF_X", "-DFFCX_VERIF_X=1"], False))
+    out.append(("form:mass:args=-DX=1,-UX", "form", form("mass"), {}, ["-DFFCX_VERIF_X=1", "-UFFCX_VERIF_X"], False))
     out.append(("form:mass:debug", "form", form("mass"), {}, [], True))
     out.append(("forms:[mass,stiff]", "form", lambda: form("mass")() + form("stiff")(), {}, [], False))
     out.append(("forms:[stiff,mass]", "form", lambda: form("stiff")() + form("mass")(), {}, [], False))
